@@ -53,6 +53,10 @@ func TestVerifReplay(t *testing.T) {
 	go func() {
 		defer func() {
 			if r := recover(); r != nil {
+				if _, ok := r.(verifrt.ReplayEnd); ok {
+					done <- ""
+					return
+				}
 				done <- fmt.Sprintf("panic: %%v", r)
 				return
 			}
